@@ -18,6 +18,7 @@ RULE = ("EXHAUSTIVE: for rule in {OneOfMany, AtMostOne, AnyOfMany} x n in 1..5 s
         "invariants. non-trivial = every (node, operation) pair; distinct = hash(rule, n, node, operation)")
 ASSUMPTIONS = ["the exact successor of a multi-switch write is left open (only the invariants are demanded)",
                "bulk selection of several switches under OneOfMany/AtMostOne must keep the invariants and must not raise"]
+QUICK_SHARDS = 2
 REQUIRED_EVENTS = ["states", "transitions", "published_updates_judged", "client_writes", "driver_assignments", "bulk_selections",
                    "client_writes_with_injected_fault", "client_writes_prevented_by_a_write_handler", "writes_in_a_foreign_spelling"]
 EXHAUSTIVE_NOTE = "the complete reachable state graph for every rule, 1..5 switches (thorough: 1..7) and every initial configuration, every operation on every node"
